@@ -78,6 +78,7 @@ REGISTRY = {
                           "receives the caller's range (by keyword or through the keyword dict that carries it): a dropped range silently "
                           "builds every row of the operator"),
             kronalg.rule_ownership_guard, kronalg.rule_dispatch_sibling_args, kronalg.rule_expec_table, kronalg.rule_ptr_recursion_base, kronalg.rule_ptr_keep_order, reduceorder.rule_reduce_order, threads.rule_no_nested_pool_wait,
+            kronalg.rule_permute_layout,
         ],
         "explanation": (
             "static (narrow): decides three structural necessary conditions of C15 — the row-ownership range is delivered along every "
@@ -519,7 +520,7 @@ _ALSO4 = {
     "C12": " Environments stored from a working network that is contracted further are private copies; a copy used together with `gauges=G` is taken before G is re-inserted; norms are stripped from the contracted boundary only.",
     "C13": " singular_values (and the Schmidt values / entropies built on it) read the stored exponent; a pair of sites is sorted together with its operator; no exit returns evaluated values before the exponent is applied; a sorted copy of the requested sites does not order the axes of a dense result.",
     "C14": " The output axis of a marginal contraction is selected by the queried index.",
-    "C15": " The sparse partial trace recursion reaches its base case with the reduced dims; (known finding) partial_trace orders the kept subsystems ascending whereas pkron honours the order given.",
+    "C15": " The dims handed to permute() describe the current layout and are not computed from the inverse permutation passed as perm. The sparse partial trace recursion reaches its base case with the reduced dims; (known finding) partial_trace orders the kept subsystems ascending whereas pkron honours the order given.",
     "C17": " The window driver hands k to both routes.",
     "C19": " The wrap-around bond of a cyclic chain is embedded at (L-1, 0); same-site operator products keep the order of the term.",
 }
